@@ -16,9 +16,8 @@ C05 — executable specification: the text model of ISO 32000-1, written as lite
 place in Figure 9, more operands than the operator takes, `Q` without `q` in the same stream, a
 resource that does not exist, a colour component outside [0,1], text shown without a font, …):
 `none` = outside the domain of the property.  An operator with missing or ill-typed operands is
-*defined* here to do nothing (that is what property C05 demands).  pdfminer starts a form with a
-fresh text/colour state instead of the caller's; the domain therefore requires a form to set that
-state itself (`hasPrologue`).
+*defined* here to do nothing (that is what property C05 demands).  A form inherits the whole
+graphics state of its caller (8.10.1).
 -/
 import PdfVerif.Model.Content
 
@@ -127,34 +126,56 @@ def deviceCS : String → Option Nat
 /-- Initial colour of a device colour space (Table 74, `CS`). -/
 def initialColour (n : Nat) : Color := if n = 4 then [0, 0, 0, 1] else List.replicate n 0
 
-/-- What `LTChar` reports for a glyph the text model paints with `Tm × CTM = trm`:
-advance `w0·Tfs·Th`, and the box `[0, d+Trise, adv, d+Trise+Tfs]` (d = descent·Tfs) mapped by `trm`. -/
-def observe (trm : Matrix) (f : Font) (gs : GS) (code : Nat) : Glyph :=
-  let w0 := f.width code / 1000
-  let th := gs.Th / 100
-  let adv := w0 * gs.Tfs * th
-  let d := f.descent / 1000 * gs.Tfs
-  let (x0, y0, x1, y1) := apply_matrix_rect trm (0, d + gs.Trise, adv, d + gs.Trise + gs.Tfs)
-  { m := trm, adv := adv, bbox := (x0, y0, x1, y1), size := y1 - y0, font := f.name, col := gs.fill }
+/-- x component of the position vector of a vertical glyph in text space (default: half the em). -/
+def posVx (f : Font) (tfs : Rat) (code : Nat) : Rat :=
+  match (f.disp code).1 with
+  | none => tfs / 2
+  | some vx => vx / 1000 * tfs
 
-/-- 9.4.4: show the codes of one string. -/
+/-- What `LTChar` reports for a glyph the text model paints with `Tm × CTM = trm`.
+Horizontal writing: advance `w0·Tfs·Th`, box `[0, d+Trise, adv, d+Trise+Tfs]` (d = descent·Tfs).
+Vertical writing: advance `w1·Tfs` (not scaled by Th), box placed by the position vector `(vx, vy)`
+(default `vx` = half the em): `[−vx, vy'+Trise+adv, −vx+Tfs, vy'+Trise]`, `vy' = (1000−vy)/1000·Tfs`.
+`w0`/`w1` = glyph-space width × the x-scale of the font matrix (1/1000 except for Type 3 fonts). -/
+def observe (trm : Matrix) (f : Font) (gs : GS) (code : Nat) : Glyph :=
+  let w := f.width code * f.hscale
+  if f.vertical then
+    let adv := w * gs.Tfs
+    let vx := posVx f gs.Tfs code
+    let vy := (1000 - (f.disp code).2) / 1000 * gs.Tfs
+    let (x0, y0, x1, y1) := apply_matrix_rect trm (-vx, vy + gs.Trise + adv, -vx + gs.Tfs, vy + gs.Trise)
+    { m := trm, adv := adv, bbox := (x0, y0, x1, y1), size := x1 - x0, font := f.name, col := gs.fill }
+  else
+    let adv := w * gs.Tfs * (gs.Th / 100)
+    let d := f.descent * f.vscale * gs.Tfs
+    let (x0, y0, x1, y1) := apply_matrix_rect trm (0, d + gs.Trise, adv, d + gs.Trise + gs.Tfs)
+    { m := trm, adv := adv, bbox := (x0, y0, x1, y1), size := y1 - y0, font := f.name, col := gs.fill }
+
+/-- 9.4.4 for one glyph: horizontal `tx = (w0·Tfs + Tc + Tw)·Th`, vertical `ty = w1·Tfs + Tc + Tw`;
+word spacing only for the single-byte code 32. -/
+def displacement (f : Font) (gs : GS) (c : Nat) : Rat × Rat :=
+  let w := f.width c * f.hscale
+  let tw := if c = 32 ∧ f.multibyte = false then gs.Tw else 0
+  if f.vertical then (0, w * gs.Tfs + gs.Tc + tw) else ((w * gs.Tfs + gs.Tc + tw) * (gs.Th / 100), 0)
+
+/-- 9.4.4: show the character codes of one string. -/
 def showCodes (f : Font) (gs : GS) : Matrix → List Nat → Matrix × List Glyph
   | tm, [] => (tm, [])
   | tm, c :: rest =>
     let g := observe (mult_matrix tm gs.ctm) f gs c
-    let w0 := f.width c / 1000
-    let tx := (w0 * gs.Tfs + gs.Tc + (if c = 32 then gs.Tw else 0)) * (gs.Th / 100)
-    let (tm', gl) := showCodes f gs (mult_matrix (1, 0, 0, 1, tx, 0) tm) rest
+    let (tx, ty) := displacement f gs c
+    let (tm', gl) := showCodes f gs (mult_matrix (1, 0, 0, 1, tx, ty) tm) rest
     (tm', g :: gl)
 
-/-- `TJ`: strings are shown, a number moves by `−n/1000·Tfs·Th`. `none` for any other element. -/
+/-- `TJ`: strings are shown; a number moves by `−n/1000·Tfs·Th` horizontally, resp. `−n/1000·Tfs`
+vertically. `none` for any other element. -/
 def showSeq (f : Font) (gs : GS) : Matrix → List Elem → Option (Matrix × List Glyph)
   | tm, [] => some (tm, [])
   | tm, .num n :: rest =>
-    let tx := (-n / 1000 * gs.Tfs) * (gs.Th / 100)
-    showSeq f gs (mult_matrix (1, 0, 0, 1, tx, 0) tm) rest
-  | tm, .str codes :: rest =>
-    let (tm1, g1) := showCodes f gs tm codes
+    let t : Rat × Rat := if f.vertical then (0, -n / 1000 * gs.Tfs) else ((-n / 1000 * gs.Tfs) * (gs.Th / 100), 0)
+    showSeq f gs (mult_matrix (1, 0, 0, 1, t.1, t.2) tm) rest
+  | tm, .str bytes :: rest =>
+    let (tm1, g1) := showCodes f gs tm (f.decode bytes)
     match showSeq f gs tm1 rest with
     | some (tm2, g2) => some (tm2, g1 ++ g2)
     | none => none
@@ -172,6 +193,8 @@ def showIn (env : Env) (s : SState) (txt : Matrix × Matrix) (seq : List Elem) :
     match env.fonts[i]? with
     | none => none
     | some f =>
+      -- vertical writing exists for composite (multi-byte) fonts only: the WMode lives in the CMap
+      if f.vertical && !f.multibyte then none else
       match showSeq f s.gs txt.1 seq with
       | none => none
       | some (tm, gl) => some ({ s with txt := some (tm, txt.2) }, gl)
@@ -303,25 +326,12 @@ def runStream (env : Env) (runForm : Form → GS → Res → Option (List Glyph)
   | none => none
   | some (s, gl) => if s.txt.isNone && s.stack.isEmpty then some gl else none
 
-/-- The state a form must set itself because pdfminer does not pass the caller's on:
-fill colour, stroke colour, Tc, Tw, Tz, TL, Tf, Tr, Ts — in this order, complete and well typed. -/
-def hasPrologue : List Instr → Bool
-  | c :: cS :: ⟨.Tc, [.num _]⟩ :: ⟨.Tw, [.num _]⟩ :: ⟨.Tz, [.num _]⟩ :: ⟨.TL, [.num _]⟩ ::
-      ⟨.Tf, [.name _, .num _]⟩ :: ⟨.Tr, [.num _]⟩ :: ⟨.Ts, [.num _]⟩ :: _ =>
-    (match c with
-      | ⟨.g, [.num _]⟩ | ⟨.rg, [.num _, .num _, .num _]⟩ | ⟨.k, [.num _, .num _, .num _, .num _]⟩ => true
-      | _ => false) &&
-    (match cS with
-      | ⟨.G, [.num _]⟩ | ⟨.RG, [.num _, .num _, .num _]⟩ | ⟨.K, [.num _, .num _, .num _, .num _]⟩ => true
-      | _ => false)
-  | _ => false
-
 /-- A form XObject invoked with graphics state `gs` (CTM already multiplied by `Matrix`). -/
 def runForm (env : Env) : Nat → Form → GS → Res → Option (List Glyph)
   | 0, _, _, _ => none
   | fuel + 1, fm, gs, res =>
     match parseInstrs fm.body [] with
-    | (is, []) => if hasPrologue is then runStream env (runForm env fuel) gs res is else none
+    | (is, []) => runStream env (runForm env fuel) gs res is
     | (_, _ :: _) => none
 
 /-- A page: initial graphics state with the page's CTM, the concatenated content streams. -/
